@@ -305,7 +305,6 @@ class Driver:
         r = self.new(None, 'node')
         def go():
             from mirsym.models import deep_clone
-            r.goal_rc = None
             rc = RcV(Cell(deep_clone(self.m, goal.h)))
             r.h = self.m.call('goal::make_base_node', [rc, Ptr(Cell(kb.h))])
         self._do(['base', r.reg, goal.reg, kb.reg], go, lambda _: 'ok')
